@@ -20,6 +20,16 @@ READY = {
         note="Trusted: Lean kernel + standard axioms; translator (validated per run by differential execution of the Float copies vs the Python originals); hand-written class wiring validated by correspondence; theorems over exact reals — float rounding that changes a discrete outcome is partial (float); adaptive classes compared at batch size 1.",
         tech="Lean 4 proofs (induction over trajectories) about definitions regenerated from the Python AST + translator validation + per-step correspondence of the class wiring + contract search",
         ref="DESIGN.md §6 C03"),
+    "C19": dict(
+        text="Theorems (Lean 4) about a model of each encoder's deterministic post-processing with the SAMPLED TENSOR AS A PARAMETER, i.e. for every possible sample sequence (= all generator seeds): output has exactly `steps` rows time-first, rate 0 is silent, a step spikes iff a cumulative interval time falls in it, two spikes of one element are >= refrac/dt steps apart offline and online (induction), Bernoulli probability clamp; the encoder Module constructor/setter state machine keeps frequency*refrac < 1000 under compensation over every setter history. Tied to the code by sample replay (cloned torch.Generator state, same draws) with exact comparison, and by a search over seeds x intensities x steps x dt x frequency x refrac x compensate x online/offline on functional API and Modules.",
+        note="Trusted: Lean kernel + standard axioms; hand-written model of the pipeline (cumsum/clamp/long/scatter, count-down) validated by sample replay; the sampler's call pattern (which draws, which shapes, which order) is a recorded assumption re-validated on every case by generator-state equality; sampler statistics are not claimed; float knife-edge cumsum covered by a monotone-rounding lemma.",
+        tech="Lean 4 proofs quantified over all sample sequences (induction over intervals / steps) + sample-replay correspondence with the real encoders + configuration search",
+        ref="DESIGN.md §6 C19"),
+    "C20": dict(
+        text="Theorems (Lean 4 + Mathlib): interp/extrap round trips for every shipped pair with the exact guards (and negation witnesses where a guard is necessary), linear interpolation between/at the brackets; Normal pdf = gaussianPDFReal hence integral 1, mean, variance; Poisson pmf = e^-l l^k/k!, sums to 1, mean and variance sums; LogNormal pdf/cdf/params round trips; exp(log-density) = density, logcdf = log cdf; ISI re-integrates to the spike times; Victor-Purpura distance (the code's dynamic programme shown equal to the recurrence) is non-negative, symmetric, bounded, zero on identical trains, and satisfies the triangle inequality for every cost in [0, inf]. Tied to the code by bit-level differential execution of the Float models against the real functions and exhaustive small-raster / small-train enumeration on the real code.",
+        note="Trusted: Lean kernel + standard axioms; Mathlib; hand-written Float/Real formula copies kept textually parallel (checked per run) and validated by differential execution; torch erf/lgamma/gammaincc carried as opaque symbols. NOT proved (outside installed Mathlib; numeric exploration only, listed in evidence as numeric_only_subclaims): cdf = integral of pdf for Normal/LogNormal, Poisson cdf = regularised incomplete gamma, LogNormal moments by integration.",
+        tech="Lean 4 + Mathlib proofs of algebraic / measure-theoretic identities and metric laws + differential execution of the executable models against the implementation",
+        ref="DESIGN.md §6 C20"),
 }
 
 
